@@ -9,8 +9,9 @@ MODULES = {
     "C01": ["contracts.externals", "contracts.ash", "contracts.ash_wire"],
     "C11": ["contracts.externals", "contracts.ash", "contracts.ash_wire", "contracts.uart"],
     "C10": ["contracts.externals", "contracts.ash", "contracts.ash_wire", "contracts.uart", "contracts.ezsp_protocol", "contracts.ezsp"],
-    "C06": ["contracts.externals", "contracts.ezsp_protocol", "contracts.ezsp"],
-    "C08": ["contracts.externals", "contracts.ezsp_protocol", "contracts.ezsp"],
+    "C06": ["contracts.externals", "contracts.codec_headers", "contracts.ezsp_protocol", "contracts.ezsp"],
+    "C08": ["contracts.externals", "contracts.codec_headers", "contracts.ezsp_protocol", "contracts.ezsp"],
+    "C07": ["contracts.externals", "contracts.codec_headers", "contracts.codec"],
     "C03": ["contracts.externals", "contracts.ash", "contracts.ash_wire"],
 }
 
